@@ -441,6 +441,11 @@ class Controller:
         self.hci_sink = sink
 
     @property
+    def le_features_page_0(self) -> bytes:
+        '''Bits 0 to 63 of the LE features, as carried by the 8-byte fields.'''
+        return (self.le_features.value & 0xFFFFFFFFFFFFFFFF).to_bytes(8, 'little')
+
+    @property
     def public_address(self) -> hci.Address:
         return self._public_address
 
@@ -630,7 +635,7 @@ class Controller:
             case ll.FeatureReq() | ll.PeripheralFeatureReq():
                 connection.send_ll_control_pdu(
                     ll.FeatureRsp(
-                        feature_set=self.le_features.value.to_bytes(8, 'little')
+                        feature_set=self.le_features_page_0
                     )
                 )
             case ll.FeatureRsp(feature_set):
@@ -2179,7 +2184,7 @@ class Controller:
         '''
         return hci.HCI_LE_Read_Local_Supported_Features_ReturnParameters(
             status=hci.HCI_ErrorCode.SUCCESS,
-            le_features=self.le_features.value.to_bytes(8, 'little'),
+            le_features=self.le_features_page_0,
         )
 
     def on_hci_le_read_all_local_supported_features_command(
@@ -2442,13 +2447,13 @@ class Controller:
             if connection.role == hci.Role.CENTRAL:
                 connection.send_ll_control_pdu(
                     ll.FeatureReq(
-                        feature_set=self.le_features.value.to_bytes(8, 'little')
+                        feature_set=self.le_features_page_0
                     )
                 )
             else:
                 connection.send_ll_control_pdu(
                     ll.PeripheralFeatureReq(
-                        feature_set=self.le_features.value.to_bytes(8, 'little')
+                        feature_set=self.le_features_page_0
                     )
                 )
         except InvalidArgumentError:
